@@ -518,6 +518,31 @@ def r4_r5_r7_load(ctx, R4="C02.R4", R5="C02.R5", R7="C02.R7") -> None:
         if subs:
             seen_meta = True
         ok_meta = ok_meta and meta_arg is not None and all(u(x.slice) == idxv for x in subs) and (bool(subs) or u(meta_arg) in ("{}", "None", "dict()"))
+        # a node answered with empty metadata although the document has a table: only because its position lies beyond the table
+        # (linear reading of the path's tests: idx >= len(metadata) must follow)
+        if not subs and idxv and meta_arg is not None:
+            from .. import lin as _lin
+            from ..rulekit import unold_ast as _uo
+
+            def atom(e):
+                t_ = u(e)
+                if t_ == idxv:
+                    return _lin.Lin.sym("I")
+                if t_ in (f"len({sname}.metadata)", f"len({sname}.metadata or ())", f"len({sname}.metadata or [])"):
+                    return _lin.Lin.sym("L")
+                return None
+            tests_ = [(ast.parse(_uo(t), mode="eval").body if isinstance(_uo(t), str) else _uo(t), k) for t, k in p.tests]
+            no_table = any((u(t) == f"{sname}.metadata" and not k) or (u(t) == f"not {sname}.metadata" and k) or (u(t) == f"{sname}.metadata is None" and k)
+                           or (u(t) == f"{sname}.metadata is not None" and not k) for t, k in tests_)
+            cons = [_lin.Lin.sym("I")]
+            for t, k in tests_:
+                c_ = _lin.constraint(t, k, atom)
+                if c_:
+                    cons += c_
+            mentions = any(f"{sname}.metadata" in u(t) for t, _ in tests_)
+            if mentions and not no_table and not _lin.infeasible(cons) and not _lin.implies(cons, _lin.Lin.sym("I") - _lin.Lin.sym("L"), nonneg=("L",)):
+                ok_meta = False
+                f_meta = "{} on the path " + p.describe()[:160]
     ctx.check(ok_op, R7, "Hugr._from_serial: op", file, line,
               "each node must be created from its own serialized operation (`<node>.root.deserialize()`)", nloop,
               expected=f"{elv}.root.deserialize()", found=f_op)
